@@ -427,11 +427,15 @@ package core
 //@ spec casesKept(now TestCases, before TestCases) bool = len(now) >= len(before) && \
 //@      (forall i int :: 0 <= i && i < len(before) ==> now[i].Name == before[i].Name && now[i].ClassName == before[i].ClassName && \
 //@         len(now[i].Executions) >= len(before[i].Executions))
+//@ spec noNewDuplicates(now TestCases, from int) bool = forall i int, j int :: from <= i && i < len(now) && 0 <= j && j < i ==> \
+//@      !(now[i].Name == now[j].Name && now[i].ClassName == now[j].ClassName)
 //@ func (TestSuite).Add
 //@   requires testSuite != nil
 //@   modifies testSuite
-//@   invariant "range cases" kept: casesKept(testSuite.TestCases, old(testSuite.TestCases)) && len(testSuite.TestCases) <= old(len(testSuite.TestCases)) + idx
+//@   invariant "range cases" kept: casesKept(testSuite.TestCases, old(testSuite.TestCases)) && len(testSuite.TestCases) <= old(len(testSuite.TestCases)) + idx && \
+//@      noNewDuplicates(testSuite.TestCases, old(len(testSuite.TestCases)))
 //@   ensures nothing_dropped [C26]: casesKept(testSuite.TestCases, old(testSuite.TestCases))
+//@   ensures a_matching_case_is_merged_not_repeated [C26]: noNewDuplicates(testSuite.TestCases, old(len(testSuite.TestCases)))
 //@   ensures at_most_one_case_each [C26]: len(testSuite.TestCases) <= old(len(testSuite.TestCases)) + len(cases)
 //@ func (TestSuite).Collapse
 //@   requires testSuite != nil
